@@ -251,6 +251,7 @@ func main() {
 	r := lib.Start("C10", "exploration")
 	maxLen := r.N(5, 6)
 	r.Rule = fmt.Sprintf("every listing over {valid,invalid,unfetchable} of length 0..%d x every composition into pages (plus empty pages) x N in {-1,0,1..7} x reference {tag, matching digest, mismatching digest, none} x skip x repository returning the callback error verbatim/wrapped is executed against notation.Verify; a case is distinct by that tuple", maxLen)
+	r.Rule += "; plus PRNG listings over the extended alphabet {valid, invalid, unfetchable, empty envelope, repeated entry}, listing failures part-way, and a verifier that reports skip with a level value of its own"
 	r.Assumptions = []string{
 		"scripted invalid signatures return (outcome with error, error) like the real verifier; nil-outcome failures are not scripted",
 		"the real-verifier sample uses notation-core-go signed envelopes; a signature is 'valid' iff signed by the trusted chain over the resolved artifact",
